@@ -140,7 +140,30 @@ class Unit:
 
 def _apply_rw(unit, f, text, rule, rx, repl, opts, where):
     try:
-        if opts.get('pad'):
+        if opts.get('addarg'):
+            # the regex matches the head of a call up to and including its `(`; `repl` replaces the head, and the text
+            # given as addarg=... is appended to the argument list in front of the matching `)` (after a trailing comma)
+            extra = opts['addarg'].replace('~', ' ')
+            out_t, pos, n = '', 0, 0
+            for m in re.finditer(rx, text, flags=re.M):
+                if m.start() < pos:
+                    continue
+                depth, k = 1, m.end()
+                while k < len(text) and depth:
+                    if text[k] in '([{':
+                        depth += 1
+                    elif text[k] in ')]}':
+                        depth -= 1
+                    k += 1
+                if depth:
+                    continue
+                inner = text[m.end():k - 1]
+                sep = '' if inner.rstrip().endswith(',') or not inner.strip() else ','
+                out_t += text[pos:m.start()] + m.expand(repl) + inner.rstrip() + sep + ' ' + extra + inner[len(inner.rstrip()):] + ')'
+                pos = k
+                n += 1
+            new = out_t + text[pos:]
+        elif opts.get('pad'):
             # multi-line match replaced by a shorter text: pad with newlines so that the line count is preserved
             def _padded(m):
                 out = m.expand(repl)
